@@ -354,7 +354,7 @@ fn le_bytes(f: &Fld, v: &N) -> Vec<u8> {
 
 macro_rules! runner {
     ($fname:ident, $T:ty, $fid:expr, $nb:expr, ark = $ark:tt, fq = $fq:tt) => {
-        pub fn $fname(bk: Bk, init: &N, steps: &[Step], ctx: &mut Ctx) -> Result<(), Failure> {
+        pub fn $fname(bk: Bk, init: &N, steps: &[Step], ctx: &mut Ctx, mut trace: Option<&mut Vec<Vec<u8>>>) -> Result<(), Failure> {
             let fid: FId = $fid;
             let f = fid.fld();
             let tag = format!("{}:{}", bk.name(), fid.name());
@@ -388,6 +388,13 @@ macro_rules! runner {
                         continue;
                     }
                 };
+                if let Some(t) = trace.as_deref_mut() {
+                    t.push(match &out {
+                        Out::Val(v) => v.to_bytes_le().to_vec(),
+                        Out::NoValue => vec![0xee],
+                        Out::Bad(_) => vec![0xbd],
+                    });
+                }
                 let sig = format!("C10|{tag}:{}|wrong-result", s.form.name());
                 match (out, want) {
                     (Out::Bad(msg), _) => {
@@ -443,13 +450,18 @@ runner!(run_min_fr, decaf377_min::Fr, FId::Fr, 32, ark = false, fq = false);
 runner!(run_min_fp, decaf377_min::Fp, FId::Fp, 48, ark = false, fq = false);
 
 pub fn run_chain(bk: Bk, f: FId, init: &N, steps: &[Step], ctx: &mut Ctx) -> Result<(), Failure> {
+    run_chain_traced(bk, f, init, steps, ctx, None)
+}
+
+/// like `run_chain`; additionally records the canonical bytes the library produced at every step
+pub fn run_chain_traced(bk: Bk, f: FId, init: &N, steps: &[Step], ctx: &mut Ctx, trace: Option<&mut Vec<Vec<u8>>>) -> Result<(), Failure> {
     match (bk, f) {
-        (Bk::Ark, FId::Fq) => run_ark_fq(bk, init, steps, ctx),
-        (Bk::Ark, FId::Fr) => run_ark_fr(bk, init, steps, ctx),
-        (Bk::Ark, FId::Fp) => run_ark_fp(bk, init, steps, ctx),
-        (Bk::Min, FId::Fq) => run_min_fq(bk, init, steps, ctx),
-        (Bk::Min, FId::Fr) => run_min_fr(bk, init, steps, ctx),
-        (Bk::Min, FId::Fp) => run_min_fp(bk, init, steps, ctx),
+        (Bk::Ark, FId::Fq) => run_ark_fq(bk, init, steps, ctx, trace),
+        (Bk::Ark, FId::Fr) => run_ark_fr(bk, init, steps, ctx, trace),
+        (Bk::Ark, FId::Fp) => run_ark_fp(bk, init, steps, ctx, trace),
+        (Bk::Min, FId::Fq) => run_min_fq(bk, init, steps, ctx, trace),
+        (Bk::Min, FId::Fr) => run_min_fr(bk, init, steps, ctx, trace),
+        (Bk::Min, FId::Fp) => run_min_fp(bk, init, steps, ctx, trace),
     }
 }
 
@@ -463,7 +475,7 @@ fn exp_limbs() -> BoxedStrategy<Vec<u64>> {
     .boxed()
 }
 
-fn step(forms: Vec<FForm>, m: N) -> impl Strategy<Value = Step> {
+pub fn step(forms: Vec<FForm>, m: N) -> impl Strategy<Value = Step> {
     let n = forms.len();
     (any::<u16>(), gen::fe(&m), gen::fe(&m), exp_limbs(), any::<u8>(), any::<bool>()).prop_map(move |(i, x, y, limbs, n_items, flag)| Step { form: forms[pick(i, n)], x, y, limbs, n: n_items, flag })
 }
